@@ -173,6 +173,44 @@ def generate(rng, tier):
             'env': {'listing_seed': rng.randint(0, 99)}}
 
 
+N_SWEEPS_THOROUGH = 150
+SWEEP_RULE = ('for up to three doctests of one sampled world: *every ordered pair* (a, b), a == b included (the same object again), '
+              'x what happens in a (nothing, exception, KeyboardInterrupt, sys.stdout replaced by a stream that is then closed, '
+              'warnings turned into errors, early exit) x on_error of a; b and the closing probe are compared with fresh-process runs')
+
+
+def sweep(rng, h):
+    import copy
+    base = generate(rng, 'thorough')
+    world = base['world']
+    ids = gen.doctest_ids(world)
+    rng.shuffle(ids)
+    ids = ids[:3]
+    mode = rng.choice(['native', 'native', 'pytest'])
+    verbose = rng.choice([0, 2, 3])
+    kinds = [None, {'kind': 'raise', 'exc': 'ValueError', 'msg': 'fault'}, {'kind': 'interrupt', 'exc': 'KeyboardInterrupt'},
+             {'kind': 'swap_stdout', 'how': 'closed'}, {'kind': 'warn_filters', 'how': 'simplefilter'},
+             {'kind': 'early_exit', 'exc': 'ExitTestException'}]
+    imports = [f for f in base['plan'] if 'import' in f]
+    out = []
+    for a in ids:
+        pts = common.points_of(world, a)
+        for b in ids:
+            for fk in kinds:
+                if fk is not None and not pts:
+                    continue
+                for oe in ('return', 'raise'):
+                    v = copy.deepcopy(base)
+                    v['ops'] = [{'op': 'run_obj', 'dt': a, 'verbose': verbose, 'on_error': oe, 'mode': mode},
+                                {'op': 'run_obj', 'dt': b, 'verbose': verbose, 'on_error': 'return', 'mode': mode},
+                                {'op': 'probe'}]
+                    v['plan'] = list(imports)
+                    if fk is not None:
+                        v['plan'].append(dict(fk, dt=a, k=0, pid=pts[-1]['pid']))
+                    out.append(v)
+    return out
+
+
 def observation(e):
     v, name, gw = expect.classify(e)
     return {
